@@ -177,6 +177,39 @@ func (m *machine) scanCalls() {
 				weekCreatedAt[key] = m.roundStart
 				weekCreatedMode[key] = m.roundMode
 				weekCreatedAsof[key] = m.roundAsof
+				// C02's "made uploadable only if" clauses, judged when the week is made
+				// uploadable (whether or not the report is ever sent)
+				dst := fc.Path
+				if fc.Op == "rename" && fc.Path2 != "" {
+					dst = fc.Path2
+				}
+				var made struct {
+					X      float64
+					Config string
+				}
+				if data, err := os.ReadFile(filepath.Join(m.c.Dir, dst)); err == nil && validWeek(week) && json.Unmarshal(data, &made) == nil {
+					wd := time.Unix(int64(refcal.DaysFromCivil(atoi(week[0:4]), atoi(week[5:7]), atoi(week[8:10])))*86400, 0).UTC()
+					var cfg *cfgVersion
+					for _, cv := range m.cfgs {
+						if cv.Version == made.Config {
+							cfg = cv
+						}
+					}
+					switch {
+					case m.roundMode != "on":
+						m.fail("uploadable-without-consent", "week %s was made uploadable (%s created) while the mode file says %q", week, dst, m.roundMode)
+					case m.roundStart.Sub(wd) > 21*24*time.Hour:
+						m.fail("too-old-uploaded", "week %s was made uploadable by a run at %s, more than 21 days after it ended", week, m.roundStart.Format(time.RFC3339))
+					case cfg != nil && cfg.Ref.SampleRate > 0 && made.X > cfg.Ref.SampleRate:
+						m.fail("sample-rate", "week %s was made uploadable with X=%v above the sample rate %v", week, made.X, cfg.Ref.SampleRate)
+					case !m.roundAsof.IsZero() && !earliest.IsZero() && !m.roundAsof.Before(earliest):
+						m.fail("data-before-optin", "week %s was made uploadable although it contains data from %s, not strictly after the opt-in date %s", week, earliest.Format("2006-01-02"), m.roundAsof.Format("2006-01-02"))
+					}
+					if m.viol != nil {
+						return
+					}
+					m.s.Probe("uploadable-judged-at-creation")
+				}
 			}
 		}
 		if creates && kind == "local" {
